@@ -1563,3 +1563,198 @@ fn pair_class(a: &Ty, b: &Ty) -> &'static str {
         | (false, false) => "closed types",
     }
 }
+
+
+/* ------------------------------------ kinding matrix ------------------------------------ */
+
+#[derive(Clone, Debug, PartialEq, Eq, Hash)]
+pub enum Kd {
+    V,
+    C,
+    Arr(Box<Kd>, Box<Kd>),
+}
+#[derive(Clone, Debug, PartialEq, Eq, Hash)]
+pub enum TE {
+    Int,
+    Ret,
+    Thk,
+    Cont,
+    Var(u8),
+    App(Box<TE>, Box<TE>),
+    Arrow(Box<TE>, Box<TE>),
+    Pair(Box<TE>, Box<TE>),
+    Forall(u8, Kd, Box<TE>),
+    Exists(u8, Kd, Box<TE>),
+    Lam(u8, Kd, Box<TE>),
+}
+
+fn kd_show(k: &Kd) -> String {
+    match k {
+        | Kd::V => "VType".into(),
+        | Kd::C => "CType".into(),
+        | Kd::Arr(a, b) => format!("{} -> {}", if matches!(a.as_ref(), Kd::Arr(..)) { format!("({})", kd_show(a)) } else { kd_show(a) }, kd_show(b)),
+    }
+}
+fn te_show(t: &TE) -> String {
+    let atom = |t: &TE| -> String {
+        match t {
+            | TE::Int | TE::Ret | TE::Thk | TE::Cont | TE::Var(_) => te_show(t),
+            | _ => format!("({})", te_show(t)),
+        }
+    };
+    match t {
+        | TE::Int => "Int64".into(),
+        | TE::Ret => "Ret".into(),
+        | TE::Thk => "Thk".into(),
+        | TE::Cont => "Cont".into(),
+        | TE::Var(x) => format!("K{x}"),
+        | TE::App(f, a) => format!("{} {}", atom(f), atom(a)),
+        | TE::Arrow(a, b) => format!("{} -> {}", atom(a), atom(b)),
+        | TE::Pair(a, b) => format!("{} * {}", atom(a), atom(b)),
+        | TE::Forall(x, k, b) => format!("forall (K{x} : {}) . {}", kd_show(k), atom(b)),
+        | TE::Exists(x, k, b) => format!("exists (K{x} : {}) . {}", kd_show(k), atom(b)),
+        | TE::Lam(x, k, b) => format!("fn (K{x} : {}) => {}", kd_show(k), atom(b)),
+    }
+}
+/// the reference kinding judgment (standard F-omega rules plus the two overloads of the language:
+/// `A -> B` and `forall` are value types when their codomain / body is a value type)
+fn kind_of(t: &TE, env: &Vec<(u8, Kd)>) -> Option<Kd> {
+    Some(match t {
+        | TE::Int => Kd::V,
+        | TE::Ret => Kd::Arr(Box::new(Kd::V), Box::new(Kd::C)),
+        | TE::Thk => Kd::Arr(Box::new(Kd::C), Box::new(Kd::V)),
+        | TE::Cont => Kd::Arr(Box::new(Kd::V), Box::new(Kd::V)),
+        | TE::Var(x) => env.iter().rev().find(|(y, _)| y == x)?.1.clone(),
+        | TE::App(f, a) => match kind_of(f, env)? {
+            | Kd::Arr(d, c) if *d == kind_of(a, env)? => *c,
+            | _ => return None,
+        },
+        | TE::Arrow(a, b) => {
+            if kind_of(a, env)? != Kd::V {
+                return None;
+            }
+            match kind_of(b, env)? {
+                | Kd::C => Kd::C,
+                | Kd::V => Kd::V,
+                | _ => return None,
+            }
+        }
+        | TE::Pair(a, b) => {
+            if kind_of(a, env)? != Kd::V || kind_of(b, env)? != Kd::V {
+                return None;
+            }
+            Kd::V
+        }
+        | TE::Forall(x, k, b) => {
+            let mut e = env.clone();
+            e.push((*x, k.clone()));
+            match kind_of(b, &e)? {
+                | Kd::C => Kd::C,
+                | Kd::V => Kd::V,
+                | _ => return None,
+            }
+        }
+        | TE::Exists(x, k, b) => {
+            let mut e = env.clone();
+            e.push((*x, k.clone()));
+            match kind_of(b, &e)? {
+                | Kd::V => Kd::V,
+                | _ => return None,
+            }
+        }
+        | TE::Lam(x, k, b) => {
+            let mut e = env.clone();
+            e.push((*x, k.clone()));
+            Kd::Arr(Box::new(k.clone()), Box::new(kind_of(b, &e)?))
+        }
+    })
+}
+fn te_all(n: usize, bound: &Vec<u8>) -> Vec<TE> {
+    let mut out = vec![];
+    if n == 1 {
+        out.extend([TE::Int, TE::Ret, TE::Thk, TE::Cont]);
+        out.extend(bound.iter().map(|x| TE::Var(*x)));
+        return out;
+    }
+    for k in 1..n - 1 {
+        let ls = te_all(k, bound);
+        let rs = te_all(n - 1 - k, bound);
+        for l in &ls {
+            for r in &rs {
+                out.push(TE::App(Box::new(l.clone()), Box::new(r.clone())));
+                out.push(TE::Arrow(Box::new(l.clone()), Box::new(r.clone())));
+                out.push(TE::Pair(Box::new(l.clone()), Box::new(r.clone())));
+            }
+        }
+    }
+    let x = bound.len() as u8;
+    let mut b2 = bound.clone();
+    b2.push(x);
+    for b in te_all(n - 1, &b2) {
+        for k in [Kd::V, Kd::C, Kd::Arr(Box::new(Kd::V), Box::new(Kd::V))] {
+            out.push(TE::Forall(x, k.clone(), Box::new(b.clone())));
+            out.push(TE::Exists(x, k.clone(), Box::new(b.clone())));
+            out.push(TE::Lam(x, k.clone(), Box::new(b.clone())));
+        }
+    }
+    out
+}
+
+pub struct KindMatrix {
+    exprs: Vec<TE>,
+    chunk: usize,
+}
+impl KindMatrix {
+    pub fn new(tier: Tier) -> Self {
+        let n = if tier == Tier::Thorough { 5 } else { 4 };
+        let mut exprs = vec![];
+        for k in 1..=n {
+            exprs.extend(te_all(k, &vec![]));
+        }
+        KindMatrix { exprs, chunk: 64 }
+    }
+    fn source(t: &TE) -> String {
+        format!("begin\n  let VType = @(intrinsic(vtype)) that\n  let CType = @(intrinsic(ctype)) that\n  let Ret = @(intrinsic(ret)) that\n  let Thk = @(intrinsic(thk)) that\n  let Int64 = @(intrinsic(i64)) that\n  let Cont (P : VType) = Thk (P -> Ret Int64) that\n  let T = {} that\n  ret 0\nend\n", te_show(t))
+    }
+}
+impl Check for KindMatrix {
+    fn property(&self) -> &'static str {
+        "C03"
+    }
+    fn name(&self) -> String {
+        "c03-kinding-matrix".into()
+    }
+    fn len(&self) -> usize {
+        self.exprs.len().div_ceil(self.chunk)
+    }
+    fn describe(&self, i: usize) -> String {
+        format!("type expressions #{}..; first:\n{}", i * self.chunk, Self::source(&self.exprs[i * self.chunk]))
+    }
+    fn rule(&self) -> String {
+        format!("every type expression with at most {} nodes over {{Int64, Ret, Thk, a user-defined operator Cont : VType -> VType, bound variables, application, ->, *, forall / exists / type-level fn with binder kinds VType, CType, VType -> VType}} ({} expressions, well kinded or not), each bound by `let T = <expression>`; oracle: accepted iff the reference kinding judgment (standard F-omega rules; `->` and forall are value types when their codomain / body is one) assigns it a kind; non-trivial = every chunk", if self.exprs.len() > 100_000 { 5 } else { 4 }, self.exprs.len())
+    }
+    fn timeout(&self) -> std::time::Duration {
+        std::time::Duration::from_secs(300)
+    }
+    fn run(&mut self, i: usize) -> CaseResult {
+        let scratch = Scratch::new("kindm");
+        let a = i * self.chunk;
+        let b = (a + self.chunk).min(self.exprs.len());
+        let mut r = CaseResult::ok("chunk").nontrivial(true).key(i as u64);
+        for t in &self.exprs[a..b] {
+            let want = kind_of(t, &vec![]).is_some();
+            let src = Self::source(t);
+            let path = scratch.write("k.zydeco", &src);
+            r = r.count("expressions", 1).count("well_kinded", want as u64);
+            match guarded(|| Subject::analyze(&path).verdict()) {
+                | Err(p) => r = r.violation(format!("type checker panics on a type expression: {}", crate::front::short_msg(&p.msg)), format!("{:?}\n{}", p, src)),
+                | Ok(v) => {
+                    if v.accepted() != want {
+                        r = r.violation(if want { "a well-kinded type expression is rejected".to_string() } else { "an ill-kinded type expression is accepted".to_string() }, format!("{} : {:?}\nverdict {:?}\n{}", te_show(t), kind_of(t, &vec![]).map(|k| kd_show(&k)), v, src));
+                    }
+                }
+            }
+        }
+        r
+    }
+}
